@@ -189,3 +189,257 @@ def vd_attach(c, a):
     sc = c.v["schema"]
     r = L.VSsetfields(vs, fnames(sc))
     return {"ret": 0 if r != FAIL else FAIL, "nrec": L.VSelts(vs), "nfields": L.VFnfields(vs), "recsize": L.VSsizeof(vs, fnames(sc))}
+
+
+# ------------------------------------------------------------------ VGroup (C08)
+DFTAG_VG, DFTAG_VH = 1965, 1962
+RAWTAG = 1000
+
+
+def vg_name(nm):
+    """<<len, char>> -> bytes"""
+    ln, ch = nm
+    return (ch * ln).encode() if ln else b""
+
+
+def vg_unname(b):
+    if not b:
+        return [0, ""]
+    s = b.decode(errors="replace")
+    if s == s[0] * len(s):
+        return [len(s), s[0]]
+    return [len(s), "?" + s[:8]]
+
+
+def vg_member(c, m):
+    if m[0] == "G":
+        return DFTAG_VG, c.v["gref"].get(m, c.v.get("deadg", {}).get(m, 60000 + int(m[1:])))
+    if m[0] == "D":
+        return DFTAG_VH, c.v["dref"].get(m, c.v.get("deadd", {}).get(m, 61000 + int(m[1:])))
+    return RAWTAG, int(m[1:])
+
+
+def vg_unmember(c, tag, ref):
+    if tag == DFTAG_VG:
+        for k, v in c.v["gref"].items():
+            if v == ref:
+                return k
+    if tag == DFTAG_VH:
+        for k, v in c.v["dref"].items():
+            if v == ref:
+                return k
+    if tag == RAWTAG:
+        return "R%d" % ref
+    return "?%d/%d" % (tag, ref)
+
+
+@teardown("VGroup")
+def vg_teardown(c):
+    for g, h in list(c.v.get("gh", {}).items()):
+        c.L.Vdetach(h)
+    if c.h.get("F", FAIL) != FAIL:
+        c.L.Vfinish(c.h["F"])
+        c.L.Hclose(c.h["F"])
+
+
+@op("VGroup", "Setup")
+def vg_setup(c, a):
+    L = c.L
+    h4api.declare_all(L)
+    fid = L.Hopen(c.path(), DFACC_CREATE, 0)
+    c.h["F"] = fid
+    L.Vinitialize(fid)
+    c.v["gref"], c.v["dref"], c.v["gh"] = {}, {}, {}
+    for i in range(a["nd"]):
+        vs = L.VSattach(fid, -1, b"w")
+        L.VSsetname(vs, b"D%d" % (i + 1))
+        L.VSfdefine(vs, b"x", DFNT["int16"], 1)
+        L.VSsetfields(vs, b"x")
+        L.VSwrite(vs, struct.pack("=h", i), 1, 0)
+        c.v["dref"]["D%d" % (i + 1)] = L.VSQueryref(vs)
+        L.VSdetach(vs)
+    for r in (1, 2, 3):
+        L.Hputelement(fid, RAWTAG, r, b"raw", 3)
+    return {"ret": 0 if fid != FAIL else FAIL}
+
+
+@op("VGroup", "New")
+def vg_new(c, a):
+    h = c.L.Vattach(c.h["F"], -1, b"w")
+    if h == FAIL:
+        return {"ret": FAIL}
+    c.v["gh"][a["g"]] = h
+    c.v["gref"][a["g"]] = c.L.VQueryref(h)
+    return {"ret": 0}
+
+
+@op("VGroup", "SetName")
+def vg_setname(c, a):
+    return {"ret": c.L.Vsetname(c.v["gh"][a["g"]], vg_name(a["name"]))}
+
+
+@op("VGroup", "SetClass")
+def vg_setclass(c, a):
+    return {"ret": c.L.Vsetclass(c.v["gh"][a["g"]], vg_name(a["name"]))}
+
+
+@op("VGroup", "Add")
+def vg_add(c, a):
+    t, r = vg_member(c, a["m"])
+    return {"ret": c.L.Vaddtagref(c.v["gh"][a["g"]], t, r)}
+
+
+@op("VGroup", "Insert")
+def vg_insert(c, a):
+    L = c.L
+    m = a["m"]
+    tmp = None
+    if m[0] == "G":
+        ch = c.v["gh"].get(m)
+        if ch is None:
+            ch = tmp = L.Vattach(c.h["F"], c.v["gref"][m], b"r")
+        r = L.Vinsert(c.v["gh"][a["g"]], ch)
+        if tmp is not None:
+            L.Vdetach(tmp)
+    else:
+        vs = L.VSattach(c.h["F"], c.v["dref"][m], b"r")
+        r = L.Vinsert(c.v["gh"][a["g"]], vs)
+        L.VSdetach(vs)
+    return {"ret": r}
+
+
+@op("VGroup", "DelRef")
+def vg_delref(c, a):
+    t, r = vg_member(c, a["m"])
+    return {"ret": c.L.Vdeletetagref(c.v["gh"][a["g"]], t, r)}
+
+
+@op("VGroup", "Detach")
+def vg_detach(c, a):
+    return {"ret": c.L.Vdetach(c.v["gh"].pop(a["g"]))}
+
+
+@op("VGroup", "Attach")
+def vg_attach(c, a):
+    h = c.L.Vattach(c.h["F"], c.v["gref"][a["g"]], a["mode"].encode())
+    if h == FAIL:
+        return {"ret": FAIL}
+    c.v["gh"][a["g"]] = h
+    return {"ret": 0, "n": c.L.Vntagrefs(h)}
+
+
+@op("VGroup", "DeleteG")
+def vg_deleteg(c, a):
+    r = c.L.Vdelete(c.h["F"], c.v["gref"][a["g"]])
+    if r != FAIL:
+        c.v.setdefault("deadg", {})[a["g"]] = c.v["gref"].pop(a["g"])
+    return {"ret": r}
+
+
+@op("VGroup", "DeleteD")
+def vg_deleted(c, a):
+    r = c.L.VSdelete(c.h["F"], c.v["dref"][a["d"]])
+    if r != FAIL:
+        c.v.setdefault("deadd", {})[a["d"]] = c.v["dref"].pop(a["d"])
+    return {"ret": r}
+
+
+def _members(c, h):
+    L = c.L
+    n = L.Vntagrefs(h)
+    if n <= 0:
+        return n, []
+    tags, refs = h4api.i32arr([0] * n), h4api.i32arr([0] * n)
+    got = L.Vgettagrefs(h, tags, refs, n)
+    out = []
+    for i in range(max(got, 0)):
+        k = vg_unmember(c, tags[i], refs[i])
+        if k.startswith("?"):
+            # a member whose object has been deleted keeps its tag/ref: name it by the id it had
+            for dk, dv in list(c.v.get("deadg", {}).items()) + list(c.v.get("deadd", {}).items()):
+                if dv == refs[i] and ((tags[i] == DFTAG_VG) == (dk[0] == "G")):
+                    k = dk
+        out.append(k)
+    return n, out
+
+
+@op("VGroup", "Info")
+def vg_info(c, a):
+    L = c.L
+    h = c.v["gh"][a["g"]]
+    ln = ctypes.c_uint16(0)
+    L.Vgetnamelen(h, byref(ln))
+    nb = create_string_buffer(ln.value + 1)
+    L.Vgetname(h, nb)
+    cl = ctypes.c_uint16(0)
+    L.Vgetclassnamelen(h, byref(cl))
+    cb = create_string_buffer(cl.value + 1)
+    L.Vgetclass(h, cb)
+    n, mem = _members(c, h)
+    return {"name": vg_unname(nb.value), "class": vg_unname(cb.value), "mem": mem, "n": n}
+
+
+@op("VGroup", "Inq")
+def vg_inq(c, a):
+    t, r = vg_member(c, a["m"])
+    return {"member": bool(c.L.Vinqtagref(c.v["gh"][a["g"]], t, r))}
+
+
+def _ids(c, refs, kind):
+    out = []
+    table = c.v["gref"] if kind == "G" else c.v["dref"]
+    for r in refs:
+        k = [x for x, v in table.items() if v == r]
+        out.append(k[0] if k else "?%d" % r)
+    return sorted(out, key=lambda s: (len(s), s))
+
+
+@op("VGroup", "Lone")
+def vg_lone(c, a):
+    L = c.L
+    arr = h4api.i32arr([0] * 64)
+    n = L.Vlone(c.h["F"], arr, 64)
+    vg = _ids(c, [arr[i] for i in range(max(n, 0))], "G")
+    arr2 = h4api.i32arr([0] * 64)
+    n2 = L.VSlone(c.h["F"], arr2, 64)
+    vs = _ids(c, [arr2[i] for i in range(max(n2, 0))], "D")
+    return {"vg": vg, "vs": vs}
+
+
+@op("VGroup", "Iterate")
+def vg_iterate(c, a):
+    L = c.L
+    refs, r = [], -1
+    while len(refs) < 1000:
+        r = L.Vgetid(c.h["F"], r)
+        if r == FAIL:
+            break
+        refs.append(r)
+    vrefs, r = [], -1
+    while len(vrefs) < 1000:
+        r = L.VSgetid(c.h["F"], r)
+        if r == FAIL:
+            break
+        vrefs.append(r)
+    return {"vg": _ids(c, refs, "G"), "vs": _ids(c, vrefs, "D")}
+
+
+@op("VGroup", "Find")
+def vg_find(c, a):
+    r = c.L.Vfind(c.h["F"], vg_name(a["name"]))
+    if r <= 0:
+        return {"found": "none"}
+    k = [x for x, v in c.v["gref"].items() if v == r]
+    return {"found": k[0] if k else "?%d" % r}
+
+
+@op("VGroup", "Reopen")
+def vg_reopen(c, a):
+    L = c.L
+    L.Vfinish(c.h["F"])
+    if L.Hclose(c.h["F"]) == FAIL:
+        return {"ret": FAIL}
+    fid = L.Hopen(c.path(), DFACC_RDWR, 0)
+    c.h["F"] = fid
+    L.Vinitialize(fid)
+    return {"ret": 0 if fid != FAIL else FAIL}
